@@ -58,6 +58,25 @@ Proof.
         -- intros [|i'] Hi'; cbn [nth]; [lra|]. apply B. lia.
 Qed.
 
+(* for every arithmetic (NaN distances included) the loop returns the initial
+   jmin or the number of one of the points *)
+Lemma nearest_from_range_any {T} (N : NumOps T) xy pts : forall j dm jm,
+  nearest_from N xy pts j dm jm = jm \/
+  (j <= nearest_from N xy pts j dm jm < j + Z.of_nat (List.length pts))%Z.
+Proof.
+  induction pts as [|p pts IH]; intros j dm jm; cbn [nearest_from]; [left; reflexivity|].
+  destruct (nltb N (dist N xy p) dm).
+  - right. destruct (IH (j + 1)%Z (dist N xy p) j) as [->|H]; cbn [List.length]; lia.
+  - destruct (IH (j + 1)%Z dm jm) as [->|H]; [left; reflexivity|right; cbn [List.length]; lia].
+Qed.
+
+Theorem nearest_in_range_any {T} (N : NumOps T) distmax xy pts :
+  pts <> [] -> (0 <= nearest N distmax xy pts < Z.of_nat (List.length pts))%Z.
+Proof.
+  intros Hne. unfold nearest. destruct (nearest_from_range_any N xy pts 0%Z distmax 0%Z) as [->|H]; [|lia].
+  destruct pts; [congruence|cbn [List.length]; lia].
+Qed.
+
 (* the selected index is always a valid point number *)
 Theorem nearest_in_range distmax xy pts :
   pts <> [] -> (0 <= nearest RR distmax xy pts < Z.of_nat (List.length pts))%Z.
@@ -213,7 +232,3 @@ Proof.
   intros Hc Hr. rewrite <- (cell2coord_centre nrows ncols xll yll csz row col Hc Hr).
   unfold cell2coord. rewrite valid_cell_rowcol by assumption. reflexivity.
 Qed.
-
-(* the extracted constants are what the model of getcoord assumes *)
-Lemma getcoord_half_tie : nhalf RR = GETCOORD_HALF_R.
-Proof. rewrite nhalf_RR. unfold GETCOORD_HALF_R. lra. Qed.
